@@ -52,7 +52,11 @@ def settings_dir():
 def gen_base(draw, st):
     """-> list of lines of main.py, metadata (names)"""
     lines = []
-    names = {"locals": [], "params": [], "funcs": [], "classes": [], "methods": []}
+    names = {"locals": [], "params": [], "funcs": [], "classes": [], "methods": [], "shadow": []}
+    # a module-level variable assigned above the definitions; some functions have a local of the same name
+    shadow = draw(st.booleans())
+    if shadow:
+        lines.append("shad_0 = 7")
     n = draw(st.integers(2, 4))
     fnames = ["fun%c" % "abcd"[i] for i in range(n)]
     blocks = []       # (start, end) line index ranges of top-level definitions
@@ -67,6 +71,8 @@ def gen_base(draw, st):
         k = draw(st.integers(1, 4))
         for j in range(k):
             v = "loc_%s_%d" % (fn, j)
+            if shadow and draw(st.integers(0, 2)) == 0:
+                v = "shad_0"
             r = draw(st.integers(0, 5))
             if r <= 1:
                 lines.append("    %s = %s" % (v, cur))
@@ -80,7 +86,11 @@ def gen_base(draw, st):
                 continue
             else:
                 lines.append("    %s = %d" % (v, j))
-            names["locals"].append(v)
+            if v == "shad_0":
+                if (fn, v) not in names["shadow"]:
+                    names["shadow"].append((fn, v))
+            else:
+                names["locals"].append(v)
             if draw(st.booleans()):
                 cur = v
         lines.append("    sink(%s)" % cur if draw(st.booleans()) else "    return %s" % cur)
@@ -157,6 +167,17 @@ def apply_edit(files, lmap, edit, meta):
         for u in files:
             files[u] = [pat.sub(fresh, l) for l in files[u]]
         return files, dict(lmap), (old, fresh)
+    if kind == "rename_in":
+        # consistent renaming of a local variable: only inside the function that owns it
+        _, fn, old, fresh = edit
+        pat = re.compile(r"\b%s\b" % re.escape(old))
+        for u in files:
+            ls = files[u]
+            for (b0, b1) in scan_blocks(ls):
+                if ls[b0].startswith("def %s(" % fn):
+                    files[u] = ls[:b0] + [pat.sub(fresh, l) for l in ls[b0:b1]] + ls[b1:]
+                    return files, dict(lmap), (old, fresh)
+        return files, dict(lmap), None
     if kind == "swap":
         _, idx = edit
         unit = "main.py"
@@ -184,8 +205,10 @@ def apply_edit(files, lmap, edit, meta):
                 new_map[(u, n)] = old
         return files, new_map, None
     if kind == "move":
-        _, idx = edit
-        unit = "main.py"
+        idx = edit[1]
+        unit = edit[2] if len(edit) > 2 else "main.py"
+        if unit not in files:
+            return files, lmap, None
         blocks = [b for b in scan_blocks(files[unit]) if files[unit][b[0]].startswith("def ")]
         if not blocks or "helper_zz.py" in files:
             return files, lmap, None
@@ -196,6 +219,8 @@ def apply_edit(files, lmap, edit, meta):
         # the moved function must not call other functions of main (it would need imports back)
         body = "\n".join(moved[1:])
         others = [l.split("(")[0].split(":")[0].split()[1] for l in ls if l.startswith(("def ", "class "))]
+        # ... nor names the unit imports (the new file would need the same import)
+        others += [l.split(" import ")[1].strip() for l in ls if l.startswith("from ") and " import " in l]
         if any(re.search(r"\b%s\b" % re.escape(o), body) for o in others if o != fname):
             return files, lmap, None
         files["helper_zz.py"] = list(moved)
@@ -217,6 +242,9 @@ def apply_edit(files, lmap, edit, meta):
     raise ValueError(kind)
 
 
+PRELUDE_RE = re.compile(r"^shad_\d+ = \d+$")      # constants assigned above the definitions
+
+
 def scan_blocks(ls):
     """Top-level definitions (def / class at column 0 with their indented or blank continuation lines) that precede
     all module-level executable code: [(start, end)] as 0-based half-open line index ranges."""
@@ -232,7 +260,7 @@ def scan_blocks(ls):
             out.append((i, j))
             i = j
             continue
-        if not l.strip() or l.startswith("#") or l.startswith(("from ", "import ")):
+        if not l.strip() or l.startswith("#") or l.startswith(("from ", "import ")) or PRELUDE_RE.match(l):
             i += 1
             continue
         break
@@ -297,7 +325,7 @@ def observe(files):
         lianrun.cleanup(res)
 
 
-def map_obs(obs, lmap, renames, moved):
+def map_obs(obs, lmap, renames, moved, orig_units=("main.py",)):
     """Express the observation of the edited project in the positions / names of the original one."""
     back = {}
     for old, fresh in renames:
@@ -308,7 +336,7 @@ def map_obs(obs, lmap, renames, moved):
 
     def mp(p):
         if p[1] == 0:
-            return p if p[0] == "main.py" else None
+            return p if p[0] in orig_units else None
         return lmap.get(p, "unmapped")
     out = {"bindings": {}, "calls": set(), "flows": set()}
     for (p, op, name), tgts in obs["bindings"].items():
@@ -346,6 +374,8 @@ def strip_moved(obs, moved):
 def oracle(case):
     """case: {"lines": [...], "meta": {...}, "edits": [...]} -> (discrepancies, info)"""
     files = {"main.py": list(case["lines"])}
+    if case.get("core"):
+        files["core.py"] = list(case["core"])
     meta = {"blocks_now": [tuple(b) for b in case["meta"]["blocks"]]}
     lmap = identity_map(files)
     renames = []
@@ -370,7 +400,7 @@ def oracle(case):
         which = "original" if "error" in o1 else "edited"
         return [((ID, ekind, "analysis-crash", which), "lian fails on the %s project: %s" % (which, (o1.get("error") or o2.get("error"))[-200:]))], {}
     moved = meta.get("moved")
-    m2 = map_obs(o2, lmap, renames, moved)
+    m2 = map_obs(o2, lmap, renames, moved, tuple(files))
     m1 = strip_moved(o1, moved)
     out = []
     for what in ("calls", "flows"):
@@ -399,12 +429,21 @@ def case_strategy():
     def cases(draw):
         lines, meta = gen_base(draw, st)
         names = meta["names"]
+        core = None
+        if draw(st.integers(0, 2)) == 0:
+            # two-file base: the last function (it calls no other) lives in core.py and main imports it
+            blocks = [b for b in scan_blocks(lines) if lines[b[0]].startswith("def ")]
+            if len(blocks) >= 2:
+                b0, b1 = blocks[-1]
+                fname = lines[b0].split("(")[0][4:]
+                core = lines[b0:b1]
+                lines = ["from core import %s" % fname] + lines[:b0] + lines[b1:]
         n_edits = draw(st.integers(1, 3))
         edits = []
         fresh_n = 0
         renamed = set()
         for _ in range(n_edits):
-            k = draw(st.sampled_from(["blank", "blank", "rename", "rename", "noop", "swap", "move"]))
+            k = draw(st.sampled_from(["blank", "blank", "rename", "rename", "noop", "swap", "move", "rename_in", "rename_in", "move_core"]))
             if k == "blank":
                 edits.append(("blank", "main.py", draw(st.integers(0, 60)), draw(st.sampled_from(["", "# comment", "# a.b.c x = 1"]))))
             elif k == "noop":
@@ -418,6 +457,17 @@ def case_strategy():
                 fresh_n += 1
                 renamed.add(old)
                 edits.append(("rename", old, "zz_fresh%d" % fresh_n))
+            elif k == "rename_in":
+                pool = [x for x in names["shadow"] if x not in renamed]
+                if not pool:
+                    continue
+                fn, old = pool[draw(st.integers(0, len(pool) - 1))]
+                fresh_n += 1
+                renamed.add((fn, old))
+                edits.append(("rename_in", fn, old, "zz_fresh%d" % fresh_n))
+            elif k == "move_core":
+                if core is not None and not any(e[0] == "move" for e in edits):
+                    edits.append(("move", 0, "core.py"))
             elif k == "swap":
                 edits.append(("swap", draw(st.integers(0, 5))))
             elif k == "move" and not any(e[0] == "move" for e in edits):
@@ -426,7 +476,12 @@ def case_strategy():
             edits.append(("blank", "main.py", 0, "# comment"))
         # a move must come last among structure edits (swap uses block positions of main)
         edits.sort(key=lambda e: 1 if e[0] == "move" else 0)
-        return {"lines": lines, "meta": {"blocks": meta["blocks"]}, "edits": [list(e) for e in edits]}
+        # a function renamed before "rename_in" would not be found by name: scoped renamings come first
+        edits.sort(key=lambda e: 0 if e[0] == "rename_in" else 1 if e[0] != "move" else 2)
+        case = {"lines": lines, "meta": {"blocks": meta["blocks"]}, "edits": [list(e) for e in edits]}
+        if core is not None:
+            case["core"] = core
+        return case
     return cases()
 
 
